@@ -152,7 +152,7 @@ def run(ctx):
                           f"the exact expectation is {bad[2]}\n{text}")
     # the command line itself: printed special cases + general formula, and --at_n
     import sympy as _sp
-    cli_sel = [i for i in range(len(progs)) if exact_by_prog.get(i) is not None][:ctx.pick(14, 60)]
+    cli_sel = [i for i in range(len(progs)) if exact_by_prog.get(i) is not None][:ctx.pick(18, 60)]
     cli_tasks = [{"kind": "cli_goals", "text": P.prog_text(progs[i][0]), "goals": [gen.goal_text(m) for m in progs[i][1]],
                   "at_n": 3, "timeout": 150} for i in cli_sel]
     cli_res = lib.run_tasks(cli_tasks, timeout=150)
